@@ -355,3 +355,94 @@ def check_interp_sampling(repo, chk):
     chk.oblige("M-interp", "interp_sample_f on four scripted batches: %d events, counter %d" % (len(got), counter.n_gen), why is None)
     if why:
         chk.violation("M-interp", fn.key, "counter", "interp_sample_f on four scripted batches: %s" % why, file=LIN, line=fn.lineno)
+
+
+def check_grid_unravel(repo, chk, rule="M-unravel"):
+    """InterpND / InterpNDHist.generate: the flat cell index drawn from the cumulative table (built from a C-order
+    flatten()) is split into per-axis indices the way the table was flattened"""
+    import ast
+
+    import numpy as np
+    import sympy as sp
+
+    from ..model import AnalysisError, norm_text
+    from ..sym import SelfObj, Translator, Unmodelled
+
+    chk.rule(rule, "InterpND.generate and InterpNDHist.generate: the statements between the initialisation of the per-axis edge lists and their np.stack are interpreted for EVERY flat cell index of the grids 3x2, 2x3x4 and 2x2x3x2 (axes of different length): axis j gets the edges [x_j[i_j], x_j[i_j + 1]] with (i_0, .., i_{d-1}) = np.unravel_index(cell, shape) - the order in which the cumulative table int_step was flattened; a wrong stride is invisible for one and two axes")
+    n_cls = 0
+    for cname in ("InterpND", "InterpNDHist"):
+        cls = repo.cls("tf_pwa/generator/interp_nd.py::" + cname)
+        fn = cls.methods.get("generate")
+        if fn is None:
+            raise AnalysisError("anchor vanished: %s.generate" % cname)
+        body = fn.node.body
+        # slice: from the statement after the last `<edge list> = [None] * self.n_dim` to the first statement that
+        # stacks an edge list
+        starts = [i for i, st in enumerate(body) if isinstance(st, ast.Assign) and isinstance(st.value, ast.BinOp) and isinstance(st.value.left, ast.List) and "n_dim" in norm_text(st.value.right)]
+        edge_names = [st.targets[0].id for i, st in enumerate(body) if i in starts and isinstance(st.targets[0], ast.Name)]
+        ends = [i for i, st in enumerate(body) if isinstance(st, ast.Assign) and isinstance(st.value, ast.Call) and norm_text(st.value.func).split(".")[-1] in ("stack", "array", "concatenate") and any(isinstance(x, ast.Name) and x.id in edge_names for x in ast.walk(st.value))]
+        if len(starts) < 2 or not ends or min(ends) <= max(starts):
+            raise AnalysisError("%s.generate: the per-axis edge lists (`[None] * self.n_dim` ... np.stack) were not found" % cname)
+        lo_name, hi_name = edge_names[0], edge_names[1]
+        block = body[max(starts) + 1:min(ends)]
+        # the name of the flat index: the local that the block reads and that is defined before it
+        prefix = [st for i, st in enumerate(body[:max(starts) + 1]) if i not in starts]
+        defined_before = {t.id for st in prefix for t in ast.walk(st) if isinstance(t, ast.Name) and isinstance(t.ctx, ast.Store)}
+        read = [x.id for st in block for x in ast.walk(st) if isinstance(x, ast.Name) and isinstance(x.ctx, ast.Load)]
+        # locals the prefix binds from the object alone (n_dim = self.n_dim) are interpreted; the flat index is the one
+        # local the block reads that comes from the random draw (its definition is not interpretable here)
+        probe_env = {"self": SelfObj(cls, {"n_dim": sp.Integer(2), "xs": [np.array([sp.Integer(0), sp.Integer(1)], dtype=object)] * 2, "n_bins": sp.Integer(1)})}
+        from_object = set()
+        for st in prefix:
+            try:
+                Translator(repo, hooks={"allow_shape": True}, max_depth=1).exec_stmt(st, probe_env, fn.mod, 0)
+                from_object |= {t.id for t in ast.walk(st) if isinstance(t, ast.Name) and isinstance(t.ctx, ast.Store)}
+            except Exception:
+                pass
+        idx_names = [nm for nm in dict.fromkeys(read) if nm in defined_before and nm not in from_object and nm not in (lo_name, hi_name, "self")]
+        # a statement of the block that neither touches the edge lists nor the index (coeff = self.coeffs[p]) is not part of it
+        core_names = (lo_name, hi_name)
+        idx_names = [nm for nm in idx_names if any(isinstance(x, ast.Name) and x.id == nm for st in block if any(isinstance(y, ast.Name) and y.id in core_names for y in ast.walk(st)) for x in ast.walk(st))]
+        if len(idx_names) != 1:
+            raise AnalysisError("%s.generate: cannot tell which local carries the flat cell index into the unravelling block (candidates %s)" % (cname, idx_names))
+        prefix_object = [st for st in prefix if {t.id for t in ast.walk(st) if isinstance(t, ast.Name) and isinstance(t.ctx, ast.Store)} <= from_object and from_object]
+        bad = None
+        n_cells = 0
+        for shape in ((3, 2), (2, 3, 4), (2, 2, 3, 2)):
+            d = len(shape)
+            xs = [np.array([sp.Symbol("x%d_%d" % (j, k)) for k in range(shape[j] + 1)], dtype=object) for j in range(d)]
+            for cell in range(int(np.prod(shape))):
+                so = SelfObj(cls, {"n_dim": sp.Integer(d), "xs": list(xs), "n_bins": sp.Integer(int(np.prod(shape)))})
+                env = {"self": so}
+                tr = Translator(repo, hooks={"allow_shape": True, "allow_attr_store": True}, max_depth=1)
+                for st in prefix_object:
+                    try:
+                        tr.exec_stmt(st, env, fn.mod, 0)
+                    except Unmodelled:
+                        pass
+                env.update({idx_names[0]: sp.Integer(cell), lo_name: [None] * d, hi_name: [None] * d})
+                try:
+                    for st in block:
+                        try:
+                            tr.exec_stmt(st, env, fn.mod, 0)
+                        except Unmodelled:
+                            # a statement that touches neither the edge lists nor the index (coeff = self.coeffs[p]) is
+                            # not part of the unravelling
+                            if any(isinstance(x, ast.Name) and x.id in (lo_name, hi_name, idx_names[0]) for x in ast.walk(st)):
+                                raise
+                except Unmodelled as e:
+                    raise AnalysisError("%s.generate: the unravelling block cannot be interpreted (%s)" % (cname, e))
+                n_cells += 1
+                want = np.unravel_index(cell, shape)
+                got_lo, got_hi = env[lo_name], env[hi_name]
+                exp_lo = [xs[j][want[j]] for j in range(d)]
+                exp_hi = [xs[j][want[j] + 1] for j in range(d)]
+                if list(got_lo) == exp_hi and list(got_hi) == exp_lo:
+                    got_lo, got_hi = got_hi, got_lo   # the two lists were initialised in the other order: which is which is told by their contents
+                if (list(got_lo) != exp_lo or list(got_hi) != exp_hi) and bad is None:
+                    bad = "grid %s, flat cell %d = cell %s: the edges are %s .. %s, expected %s .. %s" % ("x".join(map(str, shape)), cell, tuple(int(w) for w in want), list(got_lo), list(got_hi), exp_lo, exp_hi)
+        n_cls += 1
+        chk.oblige(rule, "%s.generate unravels every flat cell index of three grids in C order (%d cells)" % (cname, n_cells), bad is None)
+        if bad:
+            chk.violation(rule, fn.key, "unravel", "%s.generate: %s - events are placed in other cells than the ones drawn from the cumulative table: the sample no longer follows the interpolated density (cells of zero integral get events)" % (cname, bad), file="tf_pwa/generator/interp_nd.py", line=fn.lineno)
+    chk.require_count(rule, 2)
